@@ -55,7 +55,24 @@ def rule_single_writer(ctx, rid="single-writer"):
     for n in [x for x in t.all_nodes() if x["k"] == "call" and x.get("c") == "write_char"]:
         cs = _conds(t, n)
         r.check(("is_ignored", True) in cs, "add_text/raw-write-only-if-ignored", db.loc(t, n), "add_text writes raw characters under %s" % cs)
-    r.floor(8)
+    # ... and who asks for the raw path: only the arm of output_text() that writes a CT_IGNORED / CT_JUNK chunk (one line of a
+    # disabled region, which holds no line break; CT_JUNK is assigned nowhere).  Any other text written raw keeps the CR / LF bytes of the input.
+    n_raw = 0
+    for f, n in db.callers_of_key(t.key):
+        a = n.get("a", ())
+        flag = f.nodes.get(a[1]) if len(a) > 1 else None
+        while flag is not None and flag["k"] == "cast":
+            flag = f.nodes.get(flag["a"][0])
+        if flag is None or (flag["k"] == "bool" and not flag["v"]):
+            continue
+        n_raw += 1
+        r.seen()
+        cs = _conds(f, n)
+        r.check(flag["k"] == "bool" and f.qn == "output_text" and (("pc->Is(CT_IGNORED)", True) in cs or ("pc->Is(CT_JUNK) || pc->Is(CT_IGNORED)", True) in cs), "add_text(raw)<-%s/%s" % (f.qn, expr_str(f, a[0])[:30]), db.loc(f, n),
+                "`%s` takes add_text()'s raw path, which bypasses add_char(): line breaks inside that text are written as they were read, not as "
+                "cpd.newline (controlling conditions: %s)" % (expr_str(f, n["i"])[:60], cs[-3:]))
+    r.require(n_raw >= 1, "no caller passes is_ignored = true to add_text()")
+    r.floor(9)
 
 
 def rule_newline_table(ctx):
